@@ -121,5 +121,7 @@ def execute_fnml(data, fnml_df, fnml_execution, config):
 
     # only list values are exploded, strings that encode lists are not exploded
     data = data.explode(fnml_execution)
+    # an empty list has no element: it must not leave a NaN row behind
+    data = data.dropna(axis=0, how='any', subset=[fnml_execution])
 
     return data
